@@ -25,6 +25,8 @@ type c15Case struct {
 	MailM int `json:"mail_m"`
 	RcptM int `json:"rcpt_m"`
 
+	HeloOnly bool `json:"helo_only"` // the server refuses EHLO (502) and accepts HELO: no extension at all is negotiated
+
 	Arg  string `json:"arg"` // hostile: which argument
 	Val  []byte `json:"val"` // hostile value
 	ValQ string `json:"val_q"`
@@ -54,6 +56,9 @@ func c15Run(ctx *core.Ctx) {
 				emit(c15Case{Kind: "params", AdvA: a, AdvB: (a*37 + mm*11 + 5) % 128, MailM: mm, RcptM: (a + mm) % 8})
 			}
 		}
+		for mm := 0; mm < 64; mm++ {
+			emit(c15Case{Kind: "params", AdvA: 0, AdvB: 0, MailM: mm, RcptM: mm % 8, HeloOnly: true})
+		}
 		alpha := []string{"\r", "\n", "\x00", " ", "<", ">", "a"}
 		core.Strings(alpha, maxLen, func(parts []string) {
 			v := []byte(strings.Join(parts, ""))
@@ -71,7 +76,9 @@ func c15Run(ctx *core.Ctx) {
 
 // c15Fake answers everything positively and advertises adv(); it switches to the second
 // subset after the first RSET.
-func c15Fake(advA, advB int) func(f *wire.Fake) {
+func c15Fake(advA, advB int) func(f *wire.Fake) { return c15FakeOpt(advA, advB, false) }
+
+func c15FakeOpt(advA, advB int, heloOnly bool) func(f *wire.Fake) {
 	return func(f *wire.Fake) {
 		f.Write("220 fake ESMTP\r\n")
 		cur := advA
@@ -90,6 +97,10 @@ func c15Fake(advA, advB int) func(f *wire.Fake) {
 			}
 			up := strings.ToUpper(l)
 			switch {
+			case heloOnly && strings.HasPrefix(up, "EHLO"):
+				f.Write("502 5.5.1 EHLO not implemented\r\n")
+			case strings.HasPrefix(up, "HELO"):
+				f.Write("250 fake.test\r\n")
 			case strings.HasPrefix(up, "EHLO"), strings.HasPrefix(up, "LHLO"):
 				lines := []string{"fake.test"}
 				for i, e := range c15Exts {
@@ -189,8 +200,8 @@ func c15Exec(ctx *core.Ctx, c c15Case) {
 		c15Hostile(ctx, c)
 		return
 	}
-	ctx.Eval(fmt.Sprintf("params|%d|%d|%d|%d", c.AdvA, c.AdvB, c.MailM, c.RcptM), true)
-	f := wire.NewFake(c15Fake(c.AdvA, c.AdvB))
+	ctx.Eval(fmt.Sprintf("params|%d|%d|%d|%d|%v", c.AdvA, c.AdvB, c.MailM, c.RcptM, c.HeloOnly), true)
+	f := wire.NewFake(c15FakeOpt(c.AdvA, c.AdvB, c.HeloOnly))
 	cl := smtp.NewClient(f.Client)
 	defer func() { cl.Close(); f.Close(); f.Wait() }()
 	fail := func(sig, msg string) {
